@@ -175,6 +175,18 @@ impl Check for C03 {
                 }
             }
         }
+        // voxel-like clouds: a few bits per point and a constant record, far more than 65535 points in one data packet
+        // (one packet per 60000 stream bytes by default) and more than that still outstanding behind it
+        for (n, widths) in [(100_000u32, [2u32, 2, 1]), (200_000, [1, 1, 1]), (450_000, [1, 2, 1])] {
+            let mut proto: Vec<Rec> = ["cartesianX", "cartesianY", "cartesianZ"].iter().zip(widths.iter()).map(|(nm, w)| rec(nm, RType::Int { min: 0, max: (1i64 << w) - 1 })).collect();
+            proto.push(rec("intensity", RType::Int { min: 9, max: 9 }));
+            let scene = Program {
+                guid: format!("{{voxels-{n}}}"),
+                ops: vec![Op::Cloud(prog::CloudSpec { guid: "{c}".into(), proto, n, seed: n as u64, nan_ok: true, meta: Default::default(), finalize: true, clear_limits: 0, rejects: vec![] })],
+                end: prog::End::Finalize,
+            };
+            out.push(Case { scene, layout: Layout::default() });
+        }
         out
     }
     fn describe_fixed(t: Tier) -> Option<String> {
